@@ -4,6 +4,9 @@ CONSTANTS
   MaxK = 2
   Cap = 1
   CloseOn = "first"
+  CtxGen = FALSE
+  ContinueOnCtx = FALSE
+  LoopChecksCtx = TRUE
 INVARIANTS EofComplete
 PROPERTIES Settles
 CHECK_DEADLOCK FALSE
